@@ -157,7 +157,14 @@ def run(ctx):
         r = it.call(it.closure_of('paths2svg.disvg'), [[p1, p2]], {'filename': 'f.svg', 'attributes': attrs, 'svg_attributes': svg_attrs,
                                                                  'paths2Drawing': True, 'dimensions': ('1', '2'), 'viewbox': '0 0 1 1',
                                                                  'openinbrowser': False})
-        return dict(rec), attrs, svg_attrs
+        first = dict(rec)
+        first['added'] = list(rec['added'])
+        # svg-level width / height that are falsy (0, as a number): still the caller's values, not the defaults
+        it.call(it.closure_of('paths2svg.disvg'), [[p1]], {'filename': 'f.svg', 'attributes': [{'stroke': 'red'}], 'svg_attributes': {'width': 0, 'height': 0},
+                                                          'paths2Drawing': True, 'dimensions': ('1', '2'), 'viewbox': '0 0 1 1',
+                                                          'openinbrowser': False})
+        first['zero_dims_kwargs'] = dict(rec.get('drawing_kwargs', {}))
+        return first, attrs, svg_attrs
     try:
         pths = [p for p in explore(ctx.model, th_dis, {}) if p.raised is None]
         if not pths:
@@ -172,6 +179,17 @@ def run(ctx):
         missing = [k for k in svg_attrs if k not in dk and k not in ('width', 'height')]
         if missing:
             probs.append('svg_attributes %s do not reach Drawing(...)' % missing)
+        zk = rec_.get('zero_dims_kwargs', {})
+        size = zk.get('size')
+        got_dims = tuple(size) if isinstance(size, (tuple, list)) else (zk.get('width'), zk.get('height'))
+
+        def is_zero(x):
+            try:
+                return x is not None and not isinstance(x, str) and to_rat(x).is_zero()
+            except Exception:
+                return False
+        if not (len(got_dims) == 2 and all(is_zero(x) for x in got_dims)):
+            probs.append("svg_attributes {'width': 0, 'height': 0} reach Drawing as %r" % (got_dims,))
         ctx.record('R18.2', fdis.qualname, 'disvg: every supplied attribute (except d) reaches dwg.path; svg_attributes reach Drawing', not probs,
                    detail='; '.join(probs), where=where(fdis))
         ctx.record('R18.3', fdis.qualname, 'disvg adds the paths in input order', [a[1].get('d') for a in added] == ['D1', 'D2'],
